@@ -564,6 +564,9 @@ pub struct Case {
     pub reads: Vec<usize>,
     #[serde(default)]
     pub src_chunks: Vec<usize>,
+    /// the reader's source fails every n-th call with ErrorKind::Interrupted (0 = never); the driver retries
+    #[serde(default)]
+    pub src_interrupt: usize,
     #[serde(default)]
     pub reference: bool,
     #[serde(default)]
@@ -711,7 +714,8 @@ fn run_filter(c: &Case) -> Result<Value, String> {
     // ---- reader over the partitioned writer's output (what the property demands: still decodes)
     let rd = |input: &[u8], reads: &[usize], chunks: &[usize], lg: Option<Log>| {
         contain(|| {
-            let src = Src::new(input.to_vec(), chunks, lg.clone());
+            let mut src = Src::new(input.to_vec(), chunks, lg.clone());
+            src.interrupt_every = c.src_interrupt;
             let big = [1usize << 16];
             let sizes: &[usize] = if reads.is_empty() { &big } else { reads };
             if is_delta {
@@ -794,12 +798,16 @@ fn run_bcj2(c: &Case) -> Result<Value, String> {
         "main": s.main.len(), "call": s.call.len(), "jump": s.jump.len(), "rc": s.rc.len()});
     let log = if c.trace { Some(Log::new()) } else { None };
     let mk = |chunks: &[usize]| -> Vec<Src> {
-        vec![
+        let mut v = vec![
             Src::new(s.main.clone(), chunks, None),
             Src::new(s.call.clone(), chunks, None),
             Src::new(s.jump.clone(), chunks, None),
             Src::new(s.rc.clone(), chunks, None),
-        ]
+        ];
+        for x in v.iter_mut() {
+            x.interrupt_every = c.src_interrupt;
+        }
+        v
     };
     let r = contain(|| {
         let mut rd = BCJ2Reader::new(mk(&c.src_chunks), data.len() as u64);
